@@ -2,7 +2,8 @@
 """Hook recorder: `hookrec.py LOG NAME EXIT [--snap FILE]... -- ARGS...`
 Appends one JSON line to LOG: monotonic time (same clock as the mock CA), hook name, rendered
 arguments, stdin, selected environment, sha256/len/mode of the snapshot files; holds a lock file
-while it runs so that overlapping hook executions are detected; exits with EXIT."""
+while it runs so that overlapping hook executions are detected; exits with EXIT (EXIT < 0: kills
+itself with signal -EXIT instead)."""
 import fcntl
 import hashlib
 import json
@@ -77,6 +78,11 @@ def main():
     with open(log, "a") as f:
         fcntl.flock(f, fcntl.LOCK_EX)
         f.write(json.dumps(rec) + "\n")
+    if code < 0:
+        # "killed by a signal": no exit code at all (ExitStatus::code() == None on the Rust side)
+        fcntl.flock(lockf, fcntl.LOCK_UN)
+        os.kill(os.getpid(), -code)
+        time.sleep(5)
     sys.exit(code)
 
 
